@@ -105,6 +105,18 @@ CHECKS = {
         "must exit non-zero leaving the output path absent / byte-identical.",
         "Trusts the in-process library call as the reference (its purity is C10's subject).",
         "DESIGN.md section 3, C16"),
+    "C17": (
+        "size-parameterised program families on a geometric schedule + Hypothesis-drawn compositions, "
+        "each probed in a fresh interpreter process; differential oracle (source compiles/runs there "
+        "=> conversion, compilation and evaluation of the output succeed with the same RESULT)",
+        "28 families (consecutive statements, defs, elif chains, operator/call/attribute/subscript "
+        "chains, displays, f-string fields, block/def/lambda/comprehension nesting) are probed at "
+        "N = 10..1000 (quick) / ..10000 (thorough) and nesting 5..95 under unparser x wrapper "
+        "(x if-style where the if lowering nests), one fresh process per cell with the default "
+        "recursion limit; a family stops at the first size CPython refuses for the source itself.",
+        "Thresholds depend on the interpreter build; sizes are compared at schedule points only. "
+        "Two open findings (stdlib recursive unparser, chain_call depth) are excluded structurally.",
+        "DESIGN.md section 3, C17"),
 }
 
 NOT_YET = "check not built yet in this round; planned engine described in DESIGN.md section 3"
